@@ -29,14 +29,33 @@ def run(chk):
         chk.section(f'{kname}: dtype grid x symbolic units', symbolic_grid, kname)
     chk.section('inelastic kernels: dtype grid', inelastic_grid)
     chk.section('chopper-cascade kernels', chopper_kernels)
+    chk.section('beamline kernels: gravity drop (dtype of the wavelength, unit of the distance, every operand shape)', beamline_kernels)
     conformance(chk)
     native_grid(chk)
+    native_beamline(chk)
 
 
 def symbolic_grid(chk, kname):
     names = list(K.KERNELS[kname]['args'])
     for combo in itertools.product(DTYPES, repeat=len(names)):
         run_grid_case(chk, kname, dict(zip(names, combo)))
+
+
+def beamline_kernels(chk):
+    """conversion.beamline is anchored here too: the helper that decides the dtype of the gravity-corrected angles is verified for
+    float32/float64 wavelengths in five operand-shape combinations (contract shared with C04)"""
+    from contracts import C04
+    C04.drop_contract(chk, kit.load('conversion.beamline'))
+
+
+def native_beamline(chk):
+    """[B] the real gravity functions: result dtype == wavelength dtype, unit rad, value == documented construction, for m/mm and
+    angstrom/nm operands, scalar / per-pixel / own-dimension wavelengths"""
+    from contracts import C04
+    n = 150 if chk.tier == 'quick' else 3000
+    fails = C04.native_failures(n, 70 + chk.seed)
+    chk.bounded_check('beamline-unit-dtype-shapes', 'real scattering_angles_with_gravity / scattering_angle_in_yz_plane vs the documented construction (unit, dtype, value)',
+                      f'{n} random configurations over length / wavelength units, float32/float64, operand shapes', n, fails)
 
 
 def native_grid(chk):
@@ -160,6 +179,12 @@ def conformance(chk):
 
 
 def replay(rec):
+    if '/bounded/beamline-unit-dtype-shapes/' in rec['obligation'] or '_drop_due_to_gravity' in rec['obligation']:
+        from contracts import C04
+        f = rec.get('meta', {}).get('replay') or {}
+        fails = C04.native_failures(int(f.get('index', 149)) + 1, int(f.get('seed', 70)), limit=10 ** 6)
+        hit = [x for x in fails if 'index' not in f or x['index'] == f.get('index')]
+        return {'reproduced': bool(hit), 'case': hit[:1]}
     if '/bounded/kernel-grid/' in rec['obligation']:
         return K.replay_grid(rec.get('meta', {}).get('replay') or rec.get('model') or {})
     if rec.get('meta', {}).get('kernel') in K.KERNELS:
